@@ -46,10 +46,10 @@ def _model(survey):
 
 def c05_two_rows(col: int, alias: int, p1: bool, p2: bool, a0: int, a1: int, b0: int, b1: int) -> bool:
     """
-    pre: 0 <= alias <= 2
-    pre: 33 <= a0 <= 126 and a0 != 36 and 33 <= a1 <= 126 and a1 != 36
-    pre: 33 <= b0 <= 126 and b0 != 36 and 33 <= b1 <= 126 and b1 != 36
-    post: _ == True
+    vpre: 0 <= alias <= 2
+    vpre: 33 <= a0 <= 126 and a0 != 36 and 33 <= a1 <= 126 and a1 != 36
+    vpre: 33 <= b0 <= 126 and b0 != 36 and 33 <= b1 <= 126 and b1 != 36
+    vpost: _ == True
     """
     spellings, attr = LOGIC_COLUMNS[col]
     header = spellings[alias]
@@ -107,8 +107,8 @@ specialise(
 
 def c05_subsets(p0: bool, p1: bool, p2: bool, p3: bool, p4: bool, p5: bool, c0: int) -> bool:
     """
-    pre: 33 <= c0 <= 126 and c0 != 36
-    post: _ == True
+    vpre: 33 <= c0 <= 126 and c0 != 36
+    vpost: _ == True
     """
     ps = (p0, p1, p2, p3, p4, p5)
     row = {"type": "decimal", "name": "q1", "label": "L1"}
@@ -149,9 +149,9 @@ specialise(
 
 def c05_yesno(n: int, col: int, c0: int, c1: int, c2: int, c3: int, c4: int) -> bool:
     """
-    pre: 0 <= col <= 4
-    pre: 65 <= c0 <= 122 and 65 <= c1 <= 122 and 65 <= c2 <= 122 and 65 <= c3 <= 122 and 65 <= c4 <= 122
-    post: _ == True
+    vpre: 0 <= col <= 4
+    vpre: 65 <= c0 <= 122 and 65 <= c1 <= 122 and 65 <= c2 <= 122 and 65 <= c3 <= 122 and 65 <= c4 <= 122
+    vpost: _ == True
     """
     v = S(*((c0, c1, c2, c3, c4)[:n]))
     spellings, attr = LOGIC_COLUMNS[col]
